@@ -127,11 +127,36 @@ theorem drain_succ_cons (fuel : Nat) (r : Realm) (t : Task) (ts : List Task) (h 
     drain (fuel + 1) r = drain fuel (runTask { r with tasks := ts } t) := by
   rw [drain]; simp only [h]
 
+/-- session ids are drawn by the router: a `join` under the meta session's key, or under the key of an
+    attached client, cannot occur and is a no-op of the model -/
 theorem stepOp_join (r : Realm) (k : SessKey) (isLocal : Bool) (details : Dict) (roles : Roles) (cap : Nat) :
     r.stepOp (.join k isLocal details roles cap) =
+      if k == metaKey || r.clients.any (fun c => c.key == k) then r else
       ({ r with clients := r.clients ++ [{ key := k, details := details, roles := roles, isLocal := isLocal, cap := cap }],
                 queues := r.queues ++ [(k, [])] } : Realm).addTasks
         [.metaPub { topic := MetaEventSessionOnJoin, args := [.dict (r.cleanDetails details)] }] := rfl
+
+/-- the guard of `join`, as a proposition: the key is not the meta session's and no client has it -/
+theorem join_guard_false {r : Realm} {k : SessKey}
+    (h : ¬(k == metaKey || r.clients.any (fun c => c.key == k)) = true) :
+    k ≠ metaKey ∧ ∀ c ∈ r.clients, c.key ≠ k := by
+  simp only [Bool.or_eq_true, beq_iff_eq, List.any_eq_true, not_or, not_exists, not_and] at h
+  exact ⟨h.1, fun c hc => h.2 c hc⟩
+
+theorem stepOp_join_noop {r : Realm} {k : SessKey} (isLocal : Bool) (details : Dict) (roles : Roles) (cap : Nat)
+    (h : (k == metaKey || r.clients.any (fun c => c.key == k)) = true) :
+    r.stepOp (.join k isLocal details roles cap) = r := by
+  rw [stepOp_join, if_pos h]
+
+theorem stepOp_join_fresh {r : Realm} {k : SessKey} (isLocal : Bool) (details : Dict) (roles : Roles) (cap : Nat)
+    (hk : k ≠ metaKey) (hc : ∀ c ∈ r.clients, c.key ≠ k) :
+    r.stepOp (.join k isLocal details roles cap) =
+      ({ r with clients := r.clients ++ [{ key := k, details := details, roles := roles, isLocal := isLocal, cap := cap }],
+                queues := r.queues ++ [(k, [])] } : Realm).addTasks
+        [.metaPub { topic := MetaEventSessionOnJoin, args := [.dict (r.cleanDetails details)] }] := by
+  rw [stepOp_join, if_neg]
+  simp only [Bool.or_eq_true, beq_iff_eq, List.any_eq_true, not_or, not_exists, not_and]
+  exact ⟨hk, fun c hcm => hc c hcm⟩
 
 theorem recvMsg_eq (r : Realm) (k : SessKey) (m : Msg) :
     r.recvMsg k m =
@@ -150,10 +175,42 @@ theorem stepOp_buffer (r : Realm) (k : SessKey) :
     r.stepOp (.buffer k) =
       { r with clients := r.clients.map (fun c => if c.key == k then { c with buffered := true } else c) } := rfl
 
+/-- only an attached client has a transport to lose: `drop` of any other key is a no-op of the model -/
 theorem stepOp_drop (r : Realm) (k : SessKey) :
     r.stepOp (.drop k) =
-      if r.ending.contains k then r
+      if !r.clients.any (fun c => c.key == k) then r
+      else if r.ending.contains k then r
       else { r with tasks := r.tasks ++ [.leave k .lost], ending := r.ending ++ [k] } := rfl
+
+theorem stepOp_drop_absent {r : Realm} {k : SessKey} (h : ∀ c ∈ r.clients, c.key ≠ k) :
+    r.stepOp (.drop k) = r := by
+  rw [stepOp_drop, if_pos]
+  simp only [Bool.not_eq_true', List.any_eq_false, beq_iff_eq]
+  exact fun c hc => h c hc
+
+theorem stepOp_drop_attached {r : Realm} {k : SessKey} (h : ∃ c ∈ r.clients, c.key = k) :
+    r.stepOp (.drop k) =
+      if r.ending.contains k then r
+      else { r with tasks := r.tasks ++ [.leave k .lost], ending := r.ending ++ [k] } := by
+  rw [stepOp_drop, if_neg]
+  simp only [Bool.not_eq_true', List.any_eq_false, beq_iff_eq]
+  obtain ⟨c, hc, hk⟩ := h
+  exact fun hn => hn c hc hk
+
+/-- the three cases of `drop`: nothing (no such client, or already ending), or the handler is told to leave -/
+theorem stepOp_drop_cases (r : Realm) (k : SessKey) :
+    r.stepOp (.drop k) = r ∨
+    ((∃ c ∈ r.clients, c.key = k) ∧ r.ending.contains k = false ∧
+      r.stepOp (.drop k) = { r with tasks := r.tasks ++ [.leave k .lost], ending := r.ending ++ [k] }) := by
+  rw [stepOp_drop]
+  split
+  · exact Or.inl rfl
+  · rename_i h
+    split
+    · exact Or.inl rfl
+    · rename_i h2
+      refine Or.inr ⟨?_, by simpa using h2, rfl⟩
+      simpa using h
 
 theorem stepOp_stall (r : Realm) (k : SessKey) :
     r.stepOp (.stall k) =
